@@ -206,37 +206,40 @@ impl PqFold for SortingInference<'_> {
 
                     // if new columns are added, the relation instance needs to be updated
                     if !new_columns.is_empty() {
-                        let mut cid_redirects_to_add = Vec::new();
+                        let mut columns_to_add = Vec::new();
                         for old_cid in new_columns {
-                            let new_cid = self.ctx.anchor.cid.gen();
                             let name = self.ctx.anchor.ensure_column_name(*old_cid).cloned();
-                            if let Some(name) = name.clone() {
-                                self.ctx.anchor.column_names.insert(new_cid, name);
-                            }
 
                             let old_def = self.ctx.anchor.column_decls.get(old_cid).unwrap();
                             let col = match old_def {
                                 ColumnDecl::RelationColumn(_, _, RelationColumn::Wildcard) => {
                                     RelationColumn::Wildcard
                                 }
-                                _ => RelationColumn::Single(name),
+                                _ => RelationColumn::Single(name.clone()),
                             };
 
-                            cid_redirects_to_add.push((*old_cid, new_cid, col));
+                            columns_to_add.push((*old_cid, name, col));
                         }
 
-                        let (riid, relation_instance) = self
+                        // every instance of the CTE (it may be referenced more than once) gets
+                        // its own column, in a fixed order
+                        let riids = self
                             .ctx
                             .anchor
                             .relation_instances
-                            .iter_mut()
-                            .find(|(_riid, rel_inst)| rel_inst.table_ref.source == cte.tid)
-                            .unwrap();
+                            .iter()
+                            .filter(|(_riid, rel_inst)| rel_inst.table_ref.source == cte.tid)
+                            .map(|(riid, _)| *riid)
+                            .sorted()
+                            .collect_vec();
 
-                        cid_redirects_to_add
-                            .into_iter()
-                            .for_each(|(old_cid, new_cid, col)| {
-                                let def = ColumnDecl::RelationColumn(*riid, new_cid, col);
+                        for riid in riids {
+                            for (old_cid, name, col) in &columns_to_add {
+                                let new_cid = self.ctx.anchor.cid.gen();
+                                if let Some(name) = name.clone() {
+                                    self.ctx.anchor.column_names.insert(new_cid, name);
+                                }
+                                let def = ColumnDecl::RelationColumn(riid, new_cid, col.clone());
 
                                 self.ctx.anchor.column_decls.insert(new_cid, def);
                                 log::debug!(
@@ -245,8 +248,11 @@ impl PqFold for SortingInference<'_> {
                                     riid = riid
                                 );
 
-                                relation_instance.cid_redirects.insert(old_cid, new_cid);
-                            });
+                                let relation_instance =
+                                    self.ctx.anchor.relation_instances.get_mut(&riid).unwrap();
+                                relation_instance.cid_redirects.insert(*old_cid, new_cid);
+                            }
+                        }
                     }
                 }
                 _ => {}
